@@ -526,6 +526,57 @@ def _fuzz_jobs(ctx, kinds_all):
                               ["burst", rng.randrange(ln), 4, rng.randrange(1 << 30)], ["zero", rng.randrange(ln), 2],
                               ["fill", rng.randrange(ln), 2]])
             add("direct", "plain", {"seed": txt, "muts": [["himg", n], mut]}, foreign=True, op="sniff")
+    # ---- the same picture / record twice: identical DIB / PNG / JPEG blocks planted in a stream of a legacy .doc
+    #      (adjacent, separated, three times, last copy cut short), spans of OLE streams copied over a later offset of
+    #      the same stream (shell untouched), and the length-preserving "duplicate a span" operator on every format
+    doc0 = M.SEEDS["doc"][0]
+    for i, pk in enumerate(M.PICTURE_KINDS):
+        for at in ((100, 500, 900) if T else (500,)):
+            add("direct", "doc", {"seed": doc0, "muts": [["olepics", "WordDocument", pk, at]]})
+        if i % 6 == 0 or T:
+            add(rng.choice(["readfile", "cli", "member", "attachment"]), "doc",
+                {"seed": doc0, "muts": [["olepics", "WordDocument", pk, rng.randrange(1000)]]})
+        if T:
+            add("direct", "doc", {"seed": "fix:legacy_ms/headings.doc", "muts": [["olepics", "any", pk, rng.randrange(1000)]]})
+            add("direct", "doc", {"seed": doc0, "muts": [["olepics", "Data", pk, rng.randrange(1000)]]})
+    ole_seeds = [("doc", doc0), ("ppt", "fix:legacy_ms/slide_with_notes.ppt"), ("xls", "fix:legacy_ms/mwe.xls"),
+                 ("ppt", "fix:legacy_ms/ppt_with_images.ppt"), ("xls", "fix:legacy_ms/xls_with_images.xls")]
+    if T:
+        ole_seeds += [("doc", "fix:legacy_ms/headings.doc"), ("msg", "fix:mails/basic_email.msg")]
+    for k, sid in ole_seeds:
+        for _ in range(40 if T else 3):
+            add("direct", k, {"seed": sid, "muts": [["oledup", rng.choice(["any", "any", "WordDocument", "Data", "Pictures",
+                                                                           "Workbook", "PowerPoint Document", "1Table"]),
+                                                     rng.randrange(1 << 24), rng.randrange(64, 4097),
+                                                     rng.choice([0, 0, rng.randrange(1, 5000)])]]})
+    for k in kinds_all:
+        for sid in (M.SEEDS[k] if T else M.SEEDS[k][:1]):
+            n0 = len(M.seed_bytes(sid))
+            if n0 < 200 or (n0 > 500_000 and not T):
+                continue
+            for j in range(20 if T else 2):
+                spread(k, {"seed": sid, "muts": [["dupspan", rng.randrange(n0), rng.randrange(64, 4097), rng.randrange(n0)]]},
+                       rng.randrange(9) if T else 1)
+    # ---- compressed single files that are NOT tar archives (the router sends .gz / .bz2 / .xz to the archive
+    #      extractor), damaged compressed tars: through the CLI the diagnostic must stay ONE line
+    tar0 = "fix:archives/test_archive.tar"
+    contents = [("text", {"seed": txt, "muts": []}), ("docx", {"seed": M.SEEDS["docx"][0], "muts": []}),
+                ("garbage", {"seed": txt, "muts": [["const", "latin"]]}), ("empty", {"seed": txt, "muts": [["const", "empty"]]})]
+    for cname, src0 in contents:
+        for comp, exts in (("gz", ["gz", "tgz", "tar.gz"]), ("bz2", ["bz2", "tbz2", "tar.bz2"]), ("xz", ["xz", "txz", "tar.xz"])):
+            src1 = {"seed": src0["seed"], "muts": src0["muts"] + [["compress", comp]]}
+            add("cli", "archive", src1, ext=exts[0], cli_mode="text")
+            if T or cname == "text":
+                add("readfile", "archive", src1, ext=exts[0])
+                add("direct", "archive", src1, ext=exts[0])
+                add("cli", "archive", src1, ext=rng.choice(exts[1:]), cli_mode=rng.choice(["json", "unit"]))
+    for comp, ext in (("gz", "tgz"), ("bz2", "tbz2"), ("xz", "txz")):
+        ln = 200
+        for _ in range(8 if T else 2):
+            dmg = rng.choice([["flip", rng.randrange(ln), rng.randrange(8)], ["trunc", rng.randrange(12, ln)],
+                              ["burst", rng.randrange(20, ln), 8, rng.randrange(1 << 30)], ["zero", rng.randrange(10, ln), 16]])
+            add(rng.choice(["cli", "cli", "readfile"]), "archive", {"seed": tar0, "muts": [["compress", comp], dmg]}, ext=ext,
+                cli_mode="text")
     # ---- format A routed to extractor B (21 x 21): the extractor function directly, and by file name
     pairs = [(a, b) for a in kinds_all for b in kinds_all if a != b]
     for a, b in pairs:
@@ -581,6 +632,9 @@ def _fuzz_jobs(ctx, kinds_all):
         j = {"op": "clisub", "entry": "cli", "kind": k, "src": {"seed": sid, "muts": [mut]}, "ext": _ext_for(k, sid),
              "approx_size": n, "cli_mode": rng.choice(["text", "json", "unit", "jsonbin"])}
         subs.append(j)
+    for comp in ("gz", "bz2", "xz"):
+        subs.append({"op": "clisub", "entry": "cli", "kind": "archive", "ext": comp, "approx_size": 100, "cli_mode": "text",
+                     "src": {"seed": txt, "muts": [["compress", comp]]}})
     return jobs, subs
 
 
@@ -752,8 +806,8 @@ def run(ctx):
               "pypdf / openpyxl / olefile / xlrd / email / zipfile / tarfile / lzma run underneath",
               "TLC proves termination of the DESIGN (layer control flow of Surface.tla), not of the parsers",
               "stage of a line = position relative to the function's wrapper try, computed from the AST (c01_layers.py)",
-              "log records and third-party warnings copied to stderr by logging.lastResort / warnings are not counted as "
-              "diagnostic lines (only lines starting with 'sharepoint2text: ')",
+              "log records and third-party warnings are routed away from stderr by the harness (root handler, warnings "
+              "filter): every stderr line during cli.main is the CLI's own and is counted",
               "what a member that cannot be READ does to its archive (Zip!MemberErrorKillsArchive, repaired under C10; 7z "
               "KF-C10-01) is C10's question; for C01 both behaviours are inside the family and the archive loop is an "
               "internal layer (DON'T-CARE)")
